@@ -18,6 +18,7 @@ import (
 	"example.com/scion-time/base/crypto"
 	"example.com/scion-time/core/client"
 	"example.com/scion-time/net/ntp"
+	"example.com/scion-time/net/scion"
 
 	"verif.local/sim/simcore"
 	"verif.local/sim/simsync"
@@ -209,14 +210,47 @@ func c15World(t *testing.T, r *simcore.Run) any {
 	if tp.Bool(1, 4, "seven") {
 		nclients = 7
 	}
+	// Every sixth run uses the production wiring: timeservice.go's SCION reference clock (seven
+	// clients in interleaved mode, each with its Ntimed filter) asking a Pather for the paths.
+	wired := r.Index%6 == 5
+	if wired {
+		nclients = 7
+		r.Probe("wired-reference-clock")
+	}
 	w := newSCIONWorld(r, time.Duration(tp.Range(0, int64(time.Second), "srvoff")), nrouters)
 	w.startServers(2, false, 0, nil, false)
 	laddr, raddr := w.udpAddrs()
+	log := slog.New(&tagHandler{})
 	clients := make([]*client.SCIONClient, nclients)
 	filters := make([]*recFilter, nclients)
-	for i := range clients {
-		filters[i] = &recFilter{}
-		clients[i] = &client.SCIONClient{Log: quietLog(), DSCP: uint8(i + 1), InterleavedMode: true, Filter: filters[i]}
+	var wiredClk client.ReferenceClock
+	var pather *scion.Pather
+	if wired {
+		pather = scion.VerifNewPather(quietLog(), scCliIA)
+		var cs []*client.SCIONClient
+		wiredClk, cs = Root.NewNTPReferenceClockSCION(log, laddr, raddr, 0, pather)
+		if len(cs) != nclients {
+			r.Fail("harness", "c15/wired-clients", "the wired reference clock has %d clients", len(cs))
+			return nil
+		}
+		for i, c := range cs {
+			for j := 0; j < i; j++ {
+				if c.Filter == filters[j].inner {
+					r.Fail("C15", "wiring/shared-filter", "clients %d and %d of the reference clock share one filter: a client cannot be reset together with *its* filter", j, i)
+					return nil
+				}
+			}
+			clients[i] = c
+			filters[i] = &recFilter{inner: c.Filter}
+			c.Filter = filters[i]
+			c.Log = quietLog()
+			c.DSCP = uint8(i + 1) // identifies the client on the wire
+		}
+	} else {
+		for i := range clients {
+			filters[i] = &recFilter{}
+			clients[i] = &client.SCIONClient{Log: quietLog(), DSCP: uint8(i + 1), InterleavedMode: true, Filter: filters[i]}
+		}
 	}
 	// all paths: path j goes through router j; some carry no fingerprint
 	all := make([]snet.Path, nrouters)
@@ -257,7 +291,6 @@ func c15World(t *testing.T, r *simcore.Run) any {
 		return false, nil
 	}
 	nrounds := 2 + tp.Intn(9, "rounds")
-	log := slog.New(&tagHandler{})
 	var hist []string
 	okRounds, errRounds := 0, 0
 	w.goSafe("driver", func() {
@@ -306,7 +339,14 @@ func c15World(t *testing.T, r *simcore.Run) any {
 			}
 			seen = seen[:0]
 			ctx, cancel := simsync.WithTimeout(context.Background(), 400*time.Millisecond)
-			_, off, err := client.MeasureClockOffsetSCION(ctx, log, clients, laddr, raddr, ps)
+			var off time.Duration
+			var err error
+			if wired {
+				pather.VerifSetPaths(scSrvIA, ps)
+				_, off, err = wiredClk.MeasureClockOffset(ctx)
+			} else {
+				_, off, err = client.MeasureClockOffsetSCION(ctx, log, clients, laddr, raddr, ps)
+			}
 			cancel()
 			simcore.SetTag("driver")
 			line := fmt.Sprintf("round %d: %d clients, offered %v -> err=%v", round, nclients, offered, err)
@@ -421,8 +461,7 @@ func c15World(t *testing.T, r *simcore.Run) any {
 			var vals []time.Duration
 			for i := range clients {
 				if n := len(filters[i].calls); n > calls0[i] {
-					c := filters[i].calls[n-1]
-					vals = append(vals, ntp.ClockOffset(c[0], c[1], c[2], c[3]))
+					vals = append(vals, filters[i].outs[n-1]) // the client's (filtered) value of this round
 				}
 			}
 			if len(vals) == len(pathOf) && len(vals) > 0 && !lossy {
